@@ -36,6 +36,25 @@ let () =
           let qn = nat_of_int (int_of_string q) in
           (* getdata result, then eof/bof/spf-style plain evaluator result *)
           print_endline (sh (get_top gd_max_recurse_level db qn) ^ " " ^ sh (eval_top gd_max_recurse_level db qn))
+      | "Z" :: size :: l :: dout :: lb :: ops ->
+          (* lzma window: ops "first,n" = seek to sample `first` then read n samples, one handle *)
+          let zi x = z_of_int (int_of_string x) in
+          let size = zi size and l = zi l and dout = zi dout and lb = zi lb in
+          let orc = full_orc dout l in
+          let fuel = nat_of_int (2 * (int_of_z l) + 64) in
+          let st = ref fresh in
+          let buf = Buffer.create 64 in
+          List.iter (fun op ->
+            match String.split_on_char ',' op with
+            | [f; n] ->
+                let bc = z_of_int (int_of_string f * int_of_z size) in
+                let s1 = lzma_seek dout lb size orc fuel !st bc in
+                let start = int_of_z (cursor s1) in
+                let ((s2, cnt), _) = lzma_read lb size orc fuel s1 (zi n) in
+                st := s2;
+                Buffer.add_string buf (Printf.sprintf "%d@%d " (int_of_z cnt) start)
+            | _ -> ()) ops;
+          print_endline (String.trim (Buffer.contents buf))
       | _ -> print_endline "?"
     done
   with End_of_file -> ()
